@@ -3,6 +3,8 @@
 (* exports every history (BFS: each history once, MaxHist = 3; simulate: random histories up to MaxHist = 5). *)
 EXTENDS Io, Json
 Emit == PrintT("@@" \o ToJson([h |-> ops]))
+\* the two paths are interchangeable file names: BFS export only of histories whose first operation is on p1
+GenBfs == (ops = <<>> \/ ops[1].p = "p1") /\ Emit
 \* simulation: TLC picks uniformly among successor instances (12 Writes against at most 2 Reads); draw the operation
 \* kind first so that about half of the operations are Reads of what was written
 SimNext == IF RandomElement({0, 1}) = 1 /\ \E p \in Paths : lastkind[p] # "none"
